@@ -42,6 +42,10 @@ type space struct {
 	// open: plot/mine requests accepted on this space while it was registered, since the last cancel / keeper stop;
 	// pops: how often the plotter has taken a request of this space from its queue since then
 	open, pops int
+	// lifeReq: plot/mine requests that were handed to the plotter for this space (accepted while it was registered, or made
+	// by the configuration itself) since the last cancel that reached all of them; never reset by a keeper stop (requests
+	// waiting in the channel survive it)
+	lifeReq int
 	// how the last cancel related to the plotter position (for attributing a violation precisely)
 	cancelNote string
 	stale      int // requests issued before the last cancel that the cancel did not reach (still in the channel, or already popped)
@@ -509,10 +513,17 @@ func (t *tcase) bookkeep(name, sid string, err error) {
 	case "plot", "mine":
 		if s.state == "registered" {
 			s.open++
+			s.lifeReq++
 		}
 		s.wanted = true
 		if name == "mine" {
 			s.wantMine = true
+		}
+		if name == "plot" && s.state == "plotting" && s.wantMine && s.stale == 0 && !s.staleInFlight && s.inChan == 0 && s.lifeReq == 1 {
+			// documented table, Plot: "plotting -> ready". The request being worked off is the only one this space ever had, and a
+			// Plot on it withdraws the mining intent it carried: completion must leave the space ready, not mining
+			s.wantMine = false
+			t.run.Count("plot_requests_withdrawing_mining_intent", 1)
 		}
 		if s.state == "registered" {
 			// the keeper pushes a request into its pending channel
@@ -531,6 +542,7 @@ func (t *tcase) bookkeep(name, sid string, err error) {
 	case "stop", "remove", "delete":
 		s.wanted, s.wantMine = false, false
 		s.open, s.pops = 0, 0
+		defer func() { s.lifeReq = s.stale }()
 		switch {
 		case s.inChan > 0:
 			s.cancelNote = "request-pending-in-channel-at-cancel"
@@ -766,6 +778,7 @@ func runCase(run *vh.Run, root *vh.Rng, i int) {
 		s := &space{sid: in.SpaceID, state: stateName(in.State)}
 		if execPlot || execMine {
 			s.wanted, s.wantMine = true, execMine
+			s.lifeReq = 1
 		}
 		t.sp[in.SpaceID] = s
 		t.order = append(t.order, in.SpaceID)
